@@ -147,6 +147,16 @@ fn main() {
         Some("dump-units") => dump_units(),
         Some("check-epsilon") => check_epsilon(),
         Some("eval-kernels") => eval_kernels(),
+        Some("ser-float") => {
+            let x: f64 = args[2].parse().unwrap();
+            for compressed in [false, true] {
+                let options = grass_compiler::Options::default().style(if compressed { grass_compiler::OutputStyle::Compressed } else { grass_compiler::OutputStyle::Expanded });
+                let map = grass_compiler::codemap::CodeMap::new();
+                let file_span = { let mut m = grass_compiler::codemap::CodeMap::new(); m.add_file("x".into(), "x".into()).span };
+                let t = v::serializer_float(x, &options, &map, file_span);
+                println!("compressed={} write_float={:?} to_string={:?}", compressed, String::from_utf8_lossy(&t), v::number_to_string(grass_compiler::sass_value::Number(x), compressed));
+            }
+        }
         Some("check-prop") => check_prop(&args[2..]),
         _ => {
             eprintln!("usage: vnative dump-units");
